@@ -11,7 +11,7 @@
        anywhere;
     3. every possible value that is not hidden is listed in the row of its argument when the argument is
        shown and [hide_possible_values] is off ([visible_pv_listed]). *)
-From ClapModel Require Import Base.Bytes Base.Machine Parse.Cmd Gen.HelpTables Help.UsageModel Help.HelpModel Help.HelpProofs.
+From ClapModel Require Import Base.Bytes Base.Machine Parse.Cmd Parse.Matcher Parse.Errors Parse.Validator Gen.HelpTables Help.UsageModel Help.HelpModel Help.HelpReqs Help.HelpProofs.
 From Coq Require Import Lia.
 From RecordUpdate Require Import RecordSet.
 Import RecordSetNotations.
@@ -219,37 +219,83 @@ Qed.
 End NI.
 
 (** usage.rs reads nothing of the blanked fields *)
-Lemma erase_req_split l : forall opts poss, req_split (map erase_arg l) opts poss = req_split l opts poss.
+Lemma erase_pcmd c : pcmd_of (erase_cmd c) = pcmd_of c.
 Proof.
-  induction l as [|a t IH]; intros opts poss; [reflexivity|]. cbn [map req_split].
-  change (stylized (erase_arg a) (Some true)) with (stylized a (Some true)).
-  change (ha_index (erase_arg a)) with (ha_index a). change (ha_id (erase_arg a)) with (ha_id a).
-  destruct (stylized a (Some true)); [|reflexivity]. destruct (ha_index a); apply IH.
+  unfold pcmd_of. change (hc_name (erase_cmd c)) with (hc_name c). change (hc_groups (erase_cmd c)) with (hc_groups c).
+  change (hc_args (erase_cmd c)) with (map erase_arg (hc_args c)). rewrite map_map.
+  rewrite (map_ext (fun x => parg_of (erase_arg x)) parg_of) by reflexivity. reflexivity.
 Qed.
-Lemma erase_usage_positionals l : forall poss, usage_positionals (map erase_arg l) poss = usage_positionals l poss.
+Lemma erase_h_find c i : h_find (erase_cmd c) i = option_map erase_arg (h_find c i).
+Proof.
+  unfold h_find. change (hc_args (erase_cmd c)) with (map erase_arg (hc_args c)).
+  induction (hc_args c) as [|a t IH]; [reflexivity|]. cbn [map find].
+  change (ha_id (erase_arg a)) with (ha_id a). destruct (beq (ha_id a) i); [reflexivity|exact IH].
+Qed.
+Lemma erase_group_parts c m :
+  map_opt (fun x => if ha_is_positional x then Some (name_no_brackets x) else arg_to_string x)
+          (filter_map (h_find (erase_cmd c)) m)
+  = map_opt (fun x => if ha_is_positional x then Some (name_no_brackets x) else arg_to_string x)
+            (filter_map (h_find c) m).
+Proof.
+  induction m as [|i t IH]; [reflexivity|]. cbn [filter_map]. rewrite erase_h_find.
+  destruct (h_find c i) as [x|]; cbn [option_map]; [|exact IH]. cbn [map_opt]. rewrite IH. reflexivity.
+Qed.
+Lemma erase_format_group c g : format_group (erase_cmd c) g = format_group c g.
+Proof. unfold format_group. rewrite erase_pcmd. destruct (unroll_args_in_group _ g); [|reflexivity]. rewrite erase_group_parts. reflexivity. Qed.
+Lemma erase_req_groups c reqs : forall groups members,
+  req_groups (erase_cmd c) reqs groups members = req_groups c reqs groups members.
+Proof.
+  induction reqs as [|r t IH]; intros groups members; [reflexivity|]. cbn [req_groups].
+  rewrite erase_pcmd, erase_format_group, erase_h_find.
+  destruct (is_some (find_group (pcmd_of c) r)).
+  - destruct (unroll_args_in_group _ r); [|reflexivity]. destruct (format_group c r); [apply IH|reflexivity].
+  - destruct (h_find c r); cbn [option_map is_some]; [apply IH|reflexivity].
+Qed.
+Lemma erase_req_split c fo members reqs : forall opts poss,
+  req_split (erase_cmd c) fo members reqs opts poss = req_split c fo members reqs opts poss.
+Proof.
+  induction reqs as [|r t IH]; intros opts poss; [reflexivity|]. cbn [req_split].
+  rewrite erase_pcmd, erase_h_find. destruct (h_find c r) as [a|]; cbn [option_map].
+  - change (ha_id (erase_arg a)) with (ha_id a). change (ha_index (erase_arg a)) with (ha_index a).
+    change (stylized (erase_arg a) (Some (negb fo))) with (stylized a (Some (negb fo))).
+    destruct (mem_id (ha_id a) members); [apply IH|].
+    destruct (stylized a (Some (negb fo))); [|reflexivity]. destruct (ha_index a); apply IH.
+  - destruct (is_some (find_group (pcmd_of c) r)); [apply IH|reflexivity].
+Qed.
+Lemma erase_usage_positionals fo members l : forall poss,
+  usage_positionals fo members (map erase_arg l) poss = usage_positionals fo members l poss.
 Proof.
   induction l as [|a t IH]; intros poss; [reflexivity|]. cbn [map usage_positionals].
   change (ha_hide (erase_arg a)) with (ha_hide a). change (ha_index (erase_arg a)) with (ha_index a).
   change (ha_last (erase_arg a)) with (ha_last a). change (ha_id (erase_arg a)) with (ha_id a).
   change (stylized (erase_arg a) (Some true)) with (stylized a (Some true)).
   change (stylized (erase_arg a) (Some false)) with (stylized a (Some false)).
-  destruct (ha_hide a); [apply IH|]. destruct (ha_index a) as [i|]; [|reflexivity].
-  destruct (vec_get (N.to_nat i) poss) as [[pid st]|].
-  - destruct (ha_last a); apply IH.
-  - destruct (ha_last a).
-    + destruct (stylized a (Some true)); [apply IH|reflexivity].
-    + destruct (stylized a (Some false)); [apply IH|reflexivity].
+  destruct (ha_hide a); [apply IH|]. destruct (mem_id (ha_id a) members); [apply IH|].
+  destruct (ha_index a) as [i|]; [|reflexivity].
+  destruct (match vec_get (N.to_nat i) poss with Some _ => _ | None => _ end); [apply IH|reflexivity].
+Qed.
+Lemma erase_usage_arg_items c fo : usage_arg_items (erase_cmd c) fo = usage_arg_items c fo.
+Proof.
+  unfold usage_arg_items. rewrite erase_pcmd.
+  destruct (unrolled_reqs _ _) as [reqs|]; [|reflexivity]. rewrite erase_req_groups.
+  destruct (req_groups c reqs [] []) as [gm|]; [|reflexivity]. rewrite erase_req_split.
+  destruct (req_split c fo (snd gm) reqs [] []) as [sp|]; [|reflexivity].
+  change (hc_args (erase_cmd c)) with (map erase_arg (hc_args c)).
+  rewrite filter_map_comm by reflexivity. rewrite erase_usage_positionals. reflexivity.
+Qed.
+Lemma erase_needs_options_tag c : needs_options_tag (erase_cmd c) = needs_options_tag c.
+Proof.
+  unfold needs_options_tag. change (hc_args (erase_cmd c)) with (map erase_arg (hc_args c)).
+  rewrite filter_map_comm by reflexivity. rewrite existsb_map. apply existsb_ext'. intros f.
+  unfold in_required_group. rewrite erase_pcmd. reflexivity.
+Qed.
+Lemma erase_write_arg_usage c incl : write_arg_usage (erase_cmd c) incl = write_arg_usage c incl.
+Proof.
+  unfold write_arg_usage. rewrite erase_usage_arg_items, erase_needs_options_tag. reflexivity.
 Qed.
 Lemma erase_usage_pieces c : usage_pieces (erase_cmd c) = usage_pieces c.
 Proof.
-  unfold usage_pieces, usage_arg_items, required_args, needs_options_tag.
-  change (hc_args (erase_cmd c)) with (map erase_arg (hc_args c)).
-  change (usage_name_fallback (erase_cmd c)) with (usage_name_fallback c).
-  change (has_visible_subcommands (erase_cmd c)) with (has_visible_subcommands c).
-  change (hc_sub_required (erase_cmd c)) with (hc_sub_required c).
-  rewrite !filter_map_comm by reflexivity. rewrite erase_req_split.
-  destruct (req_split _ [] []) as [sp|]; [|reflexivity]. rewrite erase_usage_positionals.
-  rewrite existsb_map. reflexivity.
+  unfold usage_pieces, write_subcommand_usage. rewrite !erase_write_arg_usage. reflexivity.
 Qed.
 
 (** the screen of a command = the screen of the command with its hidden content blanked *)
